@@ -12,6 +12,7 @@ METHODS = ["textDocument/hover", "textDocument/definition", "textDocument/implem
            "textDocument/documentHighlight", "textDocument/rename", "textDocument/signatureHelp", "textDocument/completion",
            "textDocument/codeAction"]
 HEAVY = {"textDocument/references", "textDocument/documentHighlight", "textDocument/rename"}
+INCLUDE_STMT = re.compile(r"\s*(#\s*)?include\b", re.I)
 WORD = re.compile(r"[A-Za-z_$][\w$]*|\d+|[%()=,:'\"&!#.]")
 
 
@@ -89,7 +90,17 @@ class Prober:
             self.nonnull += 1
         for prob in shapes.validate(method, res):
             discs.append(Disc(f"shape:{short}:{prob[:40]}", f"{where}: {prob}"))
-        discs += self.check_ranges(res, uri_of(path), short)
+        rd = self.check_ranges(res, uri_of(path), short)
+        if rd and short == "definition":
+            # narrow class: the cursor is on the file name of an INCLUDE statement; fortls answers with
+            # the line number of the INCLUDE statement, applied to the included file (pinned by
+            # test_def_include_file), which need not exist there
+            f = self.srv.s.workspace.get(path)
+            src = f.contents_split[line] if f is not None and 0 <= line < len(f.contents_split) else ""
+            if INCLUDE_STMT.match(src):
+                for d in rd:
+                    d.sig = "definition-of-include-file:line-of-include-statement-used-in-target"
+        discs += rd
         return discs, res
 
 
